@@ -303,7 +303,7 @@ def finish(pid, tier, t0, results, violations, samples, rule=None, assumptions=N
     ], time.time() - t0, len(new))
     if new:
         for v in new[:5]:
-            path = core.write_replay(pid, {"property": pid, "engine": engine, "violation": v})
+            path = core.write_replay(pid, {"property": pid, "engine": v.get("engine", engine), "violation": v})
             print(f"VIOLATION property={pid} replay={path}")
         return 1
     return 0
